@@ -34,6 +34,11 @@ def cases(seed, tier):
     for i in range(n):
         out.append({"gen": "hinge" if i % 6 == 5 else "zoo", "seed": rng.randrange(2 ** 31), "singu": ["empty", "one", "adjacent", "far", "many", "border", "face", "many"][i % 8],
                     "features": (i % 6 == 5) or (i % 7 == 3), "max_size": 5 if tier == "quick" else 9})
+    # overlapping embeddings: a valid connected triangulation whose geometry is folded flat, so that adjacent triangles coincide (equal barycentres,
+    # exact ties in every geometric heuristic of the cutter)
+    for i in range(n // 6):
+        out.append({"gen": "folded", "seed": rng.randrange(2 ** 31), "singu": ["empty", "one", "far", "many", "border", "adjacent"][i % 6], "features": False,
+                    "shape": ["sheet_diagonal", "flattened_sphere", "sheet_diagonal", "flattened_torus"][i % 4], "max_size": 5})
     return out
 
 
@@ -67,6 +72,36 @@ def _pick_singularities(rng, kind, ref, nV, F):
     return list(f)
 
 
+def _folded(rng, shape):
+    """Connected oriented triangulations embedded with exact overlaps (integer / dyadic coordinates, so coincidences are bit-exact)."""
+    if shape == "sheet_diagonal":
+        n = rng.randint(3, 7)
+        V, F, _ = surfaces.grid(n, n, "tri", rng)
+        V = np.array([[float(i), float(j), 0.0] for i in range(n + 1) for j in range(n + 1)])
+        # fold along the main diagonal y = x (made of cell diagonals): the half y > x is reflected onto the half y < x
+        W = V.copy()
+        up = V[:, 1] > V[:, 0]
+        W[up, 0], W[up, 1] = V[up, 1], V[up, 0]
+        return W, F, "folded_sheet"
+    if shape == "flattened_sphere":
+        V, F, _ = surfaces.sphere(rng.choice([1, 2]), "octa")
+        V = np.round(np.asarray(V, float) * 64) / 64  # dyadic coordinates: mirror images agree bit for bit
+        V[:, 2] = 0.0
+        # drop configurations with a degenerate (zero-area) triangle after flattening
+        for f in F:
+            if np.linalg.norm(np.cross(V[f[1]] - V[f[0]], V[f[2]] - V[f[0]])) < 1e-9:
+                V2, F2, _ = surfaces.grid(4, 4, "tri", rng)
+                return _folded(rng, "sheet_diagonal")
+        return V, F, "flattened_sphere"
+    V, F, _ = surfaces.grid(rng.randint(4, 6), rng.randint(4, 6), "tri", rng, periodic_u=True, periodic_v=True)
+    V = np.round(np.asarray(V, float) * 64) / 64
+    V[:, 2] = 0.0
+    for f in F:
+        if np.linalg.norm(np.cross(V[f[1]] - V[f[0]], V[f[2]] - V[f[0]])) < 1e-9:
+            return _folded(rng, "sheet_diagonal")
+    return V, F, "flattened_torus"
+
+
 def run_case(desc, ctx):
     import mouette as M
     rng = random.Random(desc["seed"])
@@ -89,6 +124,13 @@ def run_case(desc, ctx):
         singus = _pick_singularities(rng, kind, ref, len(V), F)
         use_features = True
         cls = "hinge"
+    elif desc["gen"] == "folded":
+        V, F, cls = _folded(rng, desc["shape"])
+        a = topo.analyse(len(V), F)
+        ref = RefSurface(len(V), F)
+        kind = desc["singu"]
+        singus = _pick_singularities(rng, kind, ref, len(V), F)
+        use_features = False
     else:
         z = surfaces.make(desc["seed"], max_size=desc["max_size"], tri_only=True, connected=True, allow_union=False, generic=rng.random() < 0.5)
         V, F, a = z["V"], z["F"], z["topo"]
